@@ -459,6 +459,15 @@ theorem c20_queue_bounded (s : State) (hr : Reachable s) : ∀ x ∈ s.subs, x.q
         exact ih s2 s1 (step_bounded s0 s2 st hb hs) h
   exact key tr init s (by simp [init]) h
 
+/-- A send needs nothing but a free slot: with the one-slot channel of the pinned code, a subscriber that has read
+everything (empty channel) and is leaving — woken on `ctx.Done()`, not yet removed — does **not** make `Publish` wait:
+the send is enabled whatever its handler is doing.  (With an unbuffered channel it would not be; the harness checks
+this window on the real code, clause `departing-subscriber-blocks-publish`.) -/
+theorem c20_send_enabled_of_room (s : State) (v : Bytes) (id : SubId) (rest : List SubId) (sub : Sub)
+    (hp : s.pub = .sending v (id :: rest)) (hf : findSub s.subs id = some sub) (hroom : sub.queue.length < chanCap) :
+    (step s .pubSend).isSome := by
+  simp [step, hp, hf, hroom]
+
 /-! ## Isolation fails: the deadlock -/
 
 def vA : Bytes := [1]
